@@ -74,13 +74,17 @@ def queue_call(f, sid):
     return None
 
 
-def status_write(f, sid):
+def status_write(f, sid, bind=None):
     n = f.stmts[sid]
     if n["k"] == "BinaryOperator" and n.get("op") == "=":
         l, r = f.kids(sid)[:2]
         if (f.path(l) or "").endswith("statuses[]"):
             rn = f.stmts[f.strip(r)]
-            return rn.get("name") if rn["k"] == "DeclRefExpr" else "?"
+            if rn["k"] == "DeclRefExpr":
+                if bind and rn.get("declId") in bind:
+                    return bind[rn["declId"]]
+                return rn.get("name")
+            return "?"
     return None
 
 
@@ -185,112 +189,125 @@ def run(tier):
         lockset_check(a, frozenset())
 
     # ---------------- R2..R6 worker protocol
-    f = worker
-    g = guard_decls(f)
-    step = lock_transfer(f, g)
+    def flow(f, init_states, bind):
+      g = guard_decls(f)
+      step = lock_transfer(f, g)
+      helpers = {h.id: h for h in kids[(f.unit, f.id)]}
 
-    def w_elem(st, b, i, e):
-        held, facts, stage, pending = st
-        facts = dict(facts)
-        held2 = step(held, e)
-        if "m" in held_mutexes(held) and "m" not in held_mutexes(held2):
-            facts = {}
-            if stage in (1, 2):
-                rep.fail("HANDOVER-NOT-ATOMIC@worker", "%s: m is released between tasks.front()/pop() and "
-                         "statuses[i] = WORKING: wait() may see an empty queue and all-idle statuses while a task "
-                         "is in flight" % rel(f.loc))
-        if "s" in e:
-            sid = e["s"]
-            n = f.stmts[sid]
-            q = queue_call(f, sid)
-            cv = cv_call(f, sid)
-            sw = status_write(f, sid)
-            if n["k"] == "DeclStmt" and any("std::function<void" in (d.get("type") or "") for d in n["decls"]):
-                if stage not in (0, 5):
-                    rep.fail("IDLE-NOT-RESTORED@worker", "%s: a new iteration starts while the worker status was not "
-                             "set back to IDLE after task()" % rel(f.short_loc(sid)))
-                stage = 0
-            if q in ("front", "pop"):
-                rep.count("queue hand-over operations")
-                if facts.get("empty") is not False or "m" not in held_mutexes(held):
-                    rep.fail("QUEUE-%s-UNGUARDED@worker" % q.upper(),
-                             "%s: tasks.%s() is reached on a path where the queue is not known to be non-empty "
-                             "under m" % (rel(f.short_loc(sid)), q))
-                else:
-                    rep.ok("%s: tasks.%s() only when !tasks.empty() holds under m" % (rel(f.short_loc(sid)), q))
-                if q == "front":
-                    stage = 1
-                else:
-                    if stage != 1:
-                        rep.fail("POP-WITHOUT-FRONT@worker", "%s: tasks.pop() without taking tasks.front() first: "
-                                 "a task is dropped" % rel(f.short_loc(sid)))
-                    stage = 2
-                    facts.pop("empty", None)
-                    pending = pending | {"pop"}
-            if q in ("emplace", "push"):
-                facts.pop("empty", None)
-                pending = pending | {"emplace"}
-            if sw == "WORKING":
-                if stage != 2:
-                    rep.fail("WORKING-ORDER@worker", "%s: statuses[i] = WORKING not directly after front()/pop() in the "
-                             "same critical section" % rel(f.short_loc(sid)))
-                stage = 3
-                pending = pending | {"status"}
-            if sw == "IDLE":
-                if stage != 4:
-                    rep.fail("IDLE-ORDER@worker", "%s: statuses[i] = IDLE is not preceded by the task call" % rel(f.short_loc(sid)))
-                if "m" not in held_mutexes(held):
-                    pass  # reported by LOCKSET
-                stage = 5
-                pending = pending | {"status"}
-            if cv in ("notify_all",):
-                pending = frozenset()
-            if cv == "notify_one":
-                if pending - {"emplace"}:
-                    rep.fail("NOTIFY-ONE@worker", "%s: notify_one after %s: waiters with different predicates share c"
-                             % (rel(f.short_loc(sid)), sorted(pending)))
-                pending = frozenset()
-            if cv == "wait":
-                rep.count("condition-variable waits")
-                if wait_unguarded(f, sid):
-                    rep.fail("WAIT-WITHOUT-PREDICATE@%s" % f.qname, "%s: c.wait without predicate and outside any loop" % rel(f.short_loc(sid)))
-                if pending:
-                    rep.fail("MISSING-NOTIFY@worker", "%s: blocks on c after writing %s without notifying"
-                             % (rel(f.short_loc(sid)), sorted(pending)))
-                facts = {}
-            if task_call(f, sid):
-                rep.count("task invocations")
-                if held_mutexes(held):
-                    rep.fail("TASK-UNDER-LOCK@worker", "%s: the task is run while m is held: no other worker can "
-                             "dequeue and wait() cannot observe progress" % rel(f.short_loc(sid)))
-                elif stage != 3:
-                    rep.fail("TASK-ORDER@worker", "%s: task() is reached without the front/pop/WORKING hand-over"
+      def w_elem(st, b, i, e):
+          held, facts, stage, pending = st
+          facts = dict(facts)
+          held2 = step(held, e)
+          if "m" in held_mutexes(held) and "m" not in held_mutexes(held2):
+              facts = {}
+              if stage in (1, 2):
+                  rep.fail("HANDOVER-NOT-ATOMIC@worker", "%s: m is released between tasks.front()/pop() and "
+                           "statuses[i] = WORKING: wait() may see an empty queue and all-idle statuses while a task "
+                           "is in flight" % rel(f.loc))
+          if "s" in e:
+              sid = e["s"]
+              n = f.stmts[sid]
+              q = queue_call(f, sid)
+              cv = cv_call(f, sid)
+              sw = status_write(f, sid, bind)
+              if n["k"] == "CXXOperatorCallExpr" and n.get("op") == "()" and n.get("calleeId") in helpers:
+                  # a local helper closure: its effects are those of its own body (inlined)
+                  h = helpers[n["calleeId"]]
+                  b2 = dict(bind)
+                  for prm, a in zip(h.params, n["args"][1:]):
+                      an = f.stmts[f.strip(a)]
+                      if an["k"] == "DeclRefExpr":
+                          b2[prm["declId"]] = bind.get(an.get("declId"), an.get("name"))
+                  outs = flow(h, [(held, tuple(sorted(facts.items())), stage, pending)], b2)
+                  return tuple(outs)
+              if n["k"] == "DeclStmt" and any("std::function<void" in (d.get("type") or "") for d in n["decls"]):
+                  if stage not in (0, 5):
+                      rep.fail("IDLE-NOT-RESTORED@worker", "%s: a new iteration starts while the worker status was not "
+                               "set back to IDLE after task()" % rel(f.short_loc(sid)))
+                  stage = 0
+              if q in ("front", "pop"):
+                  rep.count("queue hand-over operations")
+                  if facts.get("empty") is not False or "m" not in held_mutexes(held):
+                      rep.fail("QUEUE-%s-UNGUARDED@worker" % q.upper(),
+                               "%s: tasks.%s() is reached on a path where the queue is not known to be non-empty "
+                               "under m" % (rel(f.short_loc(sid)), q))
+                  else:
+                      rep.ok("%s: tasks.%s() only when !tasks.empty() holds under m" % (rel(f.short_loc(sid)), q))
+                  if q == "front":
+                      stage = 1
+                  else:
+                      if stage != 1:
+                          rep.fail("POP-WITHOUT-FRONT@worker", "%s: tasks.pop() without taking tasks.front() first: "
+                                   "a task is dropped" % rel(f.short_loc(sid)))
+                      stage = 2
+                      facts.pop("empty", None)
+                      pending = pending | {"pop"}
+              if q in ("emplace", "push"):
+                  facts.pop("empty", None)
+                  pending = pending | {"emplace"}
+              if sw == "WORKING":
+                  if stage != 2:
+                      rep.fail("WORKING-ORDER@worker", "%s: statuses[i] = WORKING not directly after front()/pop() in the "
+                               "same critical section" % rel(f.short_loc(sid)))
+                  stage = 3
+                  pending = pending | {"status"}
+              if sw == "IDLE":
+                  if stage != 4:
+                      rep.fail("IDLE-ORDER@worker", "%s: statuses[i] = IDLE is not preceded by the task call" % rel(f.short_loc(sid)))
+                  if "m" not in held_mutexes(held):
+                      pass  # reported by LOCKSET
+                  stage = 5
+                  pending = pending | {"status"}
+              if cv in ("notify_all",):
+                  pending = frozenset()
+              if cv == "notify_one":
+                  if pending - {"emplace"}:
+                      rep.fail("NOTIFY-ONE@worker", "%s: notify_one after %s: waiters with different predicates share c"
+                               % (rel(f.short_loc(sid)), sorted(pending)))
+                  pending = frozenset()
+              if cv == "wait":
+                  rep.count("condition-variable waits")
+                  if wait_unguarded(f, sid):
+                      rep.fail("WAIT-WITHOUT-PREDICATE@%s" % f.qname, "%s: c.wait without predicate and outside any loop" % rel(f.short_loc(sid)))
+                  if pending:
+                      rep.fail("MISSING-NOTIFY@worker", "%s: blocks on c after writing %s without notifying"
+                               % (rel(f.short_loc(sid)), sorted(pending)))
+                  facts = {}
+              if task_call(f, sid):
+                  rep.count("task invocations")
+                  if held_mutexes(held):
+                      rep.fail("TASK-UNDER-LOCK@worker", "%s: the task is run while m is held: no other worker can "
+                               "dequeue and wait() cannot observe progress" % rel(f.short_loc(sid)))
+                  elif stage != 3:
+                      rep.fail("TASK-ORDER@worker", "%s: task() is reached without the front/pop/WORKING hand-over"
+                               % rel(f.short_loc(sid)))
+                  else:
+                      rep.ok("%s: task() runs outside m after the atomic hand-over" % rel(f.short_loc(sid)))
+                  if pending:
+                      rep.fail("MISSING-NOTIFY@worker", "%s: task starts after writing %s without notifying"
+                               % (rel(f.short_loc(sid)), sorted(pending)))
+                  stage = 4
+              if n["k"] == "ReturnStmt":
+                  rep.count("worker exits")
+                  if facts.get("stop") is True and facts.get("empty") is True and "m" in held_mutexes(held):
+                      rep.ok("%s: the worker returns only when stop && tasks.empty() holds under m (drain-then-stop)"
                              % rel(f.short_loc(sid)))
-                else:
-                    rep.ok("%s: task() runs outside m after the atomic hand-over" % rel(f.short_loc(sid)))
-                if pending:
-                    rep.fail("MISSING-NOTIFY@worker", "%s: task starts after writing %s without notifying"
-                             % (rel(f.short_loc(sid)), sorted(pending)))
-                stage = 4
-            if n["k"] == "ReturnStmt":
-                rep.count("worker exits")
-                if facts.get("stop") is True and facts.get("empty") is True and "m" in held_mutexes(held):
-                    rep.ok("%s: the worker returns only when stop && tasks.empty() holds under m (drain-then-stop)"
-                           % rel(f.short_loc(sid)))
-                else:
-                    rep.fail("WORKER-EXIT-UNGUARDED@worker", "%s: the worker can return with facts %s: queued tasks may "
-                             "never run" % (rel(f.short_loc(sid)), facts))
-                if stage in (1, 2, 3, 4):
-                    rep.fail("WORKER-EXIT-MIDTASK@worker", "%s: return in the middle of a hand-over" % rel(f.short_loc(sid)))
-        return ((held2, tuple(sorted(facts.items())), stage, pending),)
+                  else:
+                      rep.fail("WORKER-EXIT-UNGUARDED@worker", "%s: the worker can return with facts %s: queued tasks may "
+                               "never run" % (rel(f.short_loc(sid)), facts))
+                  if stage in (1, 2, 3, 4):
+                      rep.fail("WORKER-EXIT-MIDTASK@worker", "%s: return in the middle of a hand-over" % rel(f.short_loc(sid)))
+          return ((held2, tuple(sorted(facts.items())), stage, pending),)
 
-    def w_edge(st, b, succ, pol):
-        held, facts, stage, pending = st
-        fx = branch(f, b, pol, dict(facts), tp_atom)
-        if fx is None:
-            return ()
-        return ((held, tuple(sorted(fx.items())), stage, pending),)
-    forward(f, [(frozenset(), (), 0, frozenset())], w_elem, w_edge)
+      def w_edge(st, b, succ, pol):
+          held, facts, stage, pending = st
+          fx = branch(f, b, pol, dict(facts), tp_atom)
+          if fx is None:
+              return ()
+          return ((held, tuple(sorted(fx.items())), stage, pending),)
+      IN_, OUT_ = forward(f, init_states, w_elem, w_edge)
+      return IN_.get(f.exit, set())
+    flow(worker, [(frozenset(), (), 0, frozenset())], {})
 
     # ---------------- R5 notification in addTask / destructor ; R8
     def notify_rule(f, label):
